@@ -1,5 +1,6 @@
 -- Root of the library: every property file (which pulls in the models it is about).
 import Resvg.Props.C02
+import Resvg.Props.C03
 import Resvg.Props.C09
 import Resvg.Props.C13
 import Resvg.Props.C14
